@@ -52,6 +52,12 @@ module: result dtype of the float arguments, value of the float call to float32 
 integer tensor in float32), monotone in t and sigma; integer log-moneyness 0 likewise (known finding on the current
 tree: the python volatility is truncated to integer 0).
 
+``derivative_bound`` also walks the per-step accessors of the lookback and American binary derivative after every
+round: for every step index 0..T-1 and the negative aliases -2..-T (max_moneyness(-1) raises IndexError on the reference
+tree and is left out) the triple (log_moneyness(i), max_log_moneyness(i), time_to_maturity(i)) must be column i mod T
+of the whole-path accessors, running max >= current, and the module fed with the triple must satisfy the range /
+== 1-after-hit / locked-in-floor relations for that step.
+
 Slack.  Each computed price carries a rounding error of at most tol = 32 eps(dtype) scale with
   scale_eu = S + K,  scale_bin = 1 + e^s,  scale_lb = (S + K + M)(1 + w)^2,  w = v sqrt(t)
 (derivation in mc/checks/c07.py; C07 confirms the implementation stays within it against the exact
@@ -720,6 +726,60 @@ def derivative_bound(ctx, block):
                  "American binary price() != 1 although the running maximum of the CURRENT path has reached the strike", am, "1.0")
             flag("EuropeanOption", "bound_parity", ~((ec - ep - (S - K)).abs() <= 2 * tol_eu + 4 * eps * (S + K)),
                  "European call price() - put price() != S - K", ec - ep, S - K)
+            # ---- per-step accessors, incl. the negative aliases -2 .. -T (max_moneyness(-1) raises on the reference tree) ----
+            site_sfx = "" if fx is None else ": user subclass overriding moneyness"
+            for nm in ("american_binary", "lookback"):
+                d_ = derivs[nm]
+                full_lm, full_mx, full_tt = d_.log_moneyness(), d_.max_log_moneyness(), d_.time_to_maturity()
+                vol_ = d_.ul().volatility
+                for i in list(range(T)) + list(range(-2, -T - 1, -1)):
+                    j = i if i >= 0 else T + i
+                    site = f"{type(d_).__name__}.max_log_moneyness(time_step)"
+                    try:
+                        tri = (d_.log_moneyness(i), d_.max_log_moneyness(i), d_.time_to_maturity(i))
+                    except (IndexError, RuntimeError) as e:
+                        ctx.tick(1)
+                        ctx.violation(site, f"step_accessor_raises:{type(e).__name__}", f"accessors at time_step={i} raised {e} after history {hist[:rnd]}",
+                                      observed=repr(e)[:200], expected="values of step %d" % j, block=mb)
+                        continue
+                    ctx.tick(3 * N, nontrivial=3 * N if i < 0 else 0)
+                    ctx.add("step_accessor_triples")
+                    for what, got, full in zip(("log_moneyness", "max_log_moneyness", "time_to_maturity"), tri, (full_lm, full_mx, full_tt)):
+                        if tuple(got.shape) != (N, 1) or not torch.equal(got, full[:, [j]]):
+                            r = int((got != full[:, [j]]).flatten().nonzero()[0]) if tuple(got.shape) == (N, 1) else 0
+                            ctx.violation(f"{type(d_).__name__}.{what}(time_step)", "step_accessor_differs_from_step_" + ("negative_alias" if i < 0 else "index"),
+                                          f"{what}({i}) != column {j} of {what}() after history {hist[:rnd]}: path {stock.spot[r].tolist()}, strike {K}{site_sfx}",
+                                          observed=float(got.flatten()[r]) if tuple(got.shape) == (N, 1) else list(got.shape),
+                                          expected=float(full[r, j]), block=mb)
+                    lm_i, mx_i, tt_i = tri
+                    if tuple(mx_i.shape) != (N, 1) or tuple(lm_i.shape) != (N, 1):
+                        continue
+                    below = mx_i < lm_i
+                    if below.any():
+                        r = int(below.flatten().nonzero()[0])
+                        ctx.violation(site, "step_running_max_below_current", f"max_log_moneyness({i}) < log_moneyness({i}) on path {stock.spot[r].tolist()}, strike {K}{site_sfx}",
+                                      observed=float(mx_i[r, 0]), expected=f">= {float(lm_i[r, 0])}", block=mb)
+                    if j >= T - 1:
+                        continue                      # expiry column: C18
+                    pr = mods[nm].price(lm_i, mx_i, tt_i, vol_[:, [j]]).to(F64)
+                    ctx.tick(N, nontrivial=N)
+                    hit_j = (spot.cummax(dim=-1).values[:, [j]] >= K)
+                    if nm == "american_binary":
+                        bad = ~((pr >= -tol_bin[:, [j]]) & (pr <= 1 + tol_bin[:, [j]])) | (hit_j & ~(pr == 1.0))
+                        if bad.any():
+                            r = int(bad.flatten().nonzero()[0])
+                            ctx.violation("BlackScholes(AmericanBinaryOption)", "step_accessors_american_outside_unit_interval_or_not_one_after_hit",
+                                          f"price(log_moneyness({i}), max_log_moneyness({i}), time_to_maturity({i}), vol) = {float(pr[r, 0])} on path "
+                                          f"{stock.spot[r].tolist()} (barrier reached by then: {bool(hit_j[r, 0])}), strike {K}{site_sfx}",
+                                          observed=float(pr[r, 0]), expected="in [0, 1], == 1 once reached", block=mb)
+                    else:
+                        lockj = (spot.cummax(dim=-1).values[:, [j]] - K).clamp(min=0)
+                        bad = ~(pr >= lockj - tol_lb[:, [j]])
+                        if bad.any():
+                            r = int(bad.flatten().nonzero()[0])
+                            ctx.violation("BlackScholes(LookbackOption)", "step_accessors_lookback_below_locked_in",
+                                          f"price(accessors at step {i}) = {float(pr[r, 0])} < locked-in payoff {float(lockj[r, 0])} on path {stock.spot[r].tolist()}, strike {K}{site_sfx}",
+                                          observed=float(pr[r, 0]), expected=float(lockj[r, 0]), block=mb)
 
         check_round(0)
         for rnd, route in enumerate(hist, start=1):
